@@ -477,7 +477,28 @@ pub fn run_sweep(name: &str, tier: &str, chunk: u64, nchunks: u64, res: &mut Wor
                     mutations(&valid, &[0x20, 0x01, 0x80, 0x00], &mut |s| report(res, name, json!(hex(s)), check_dec_path(s)));
                 }
             }
-            res.completed.push(format!("{name}: all strings of length <= {maxlen} over {{0,a,A,/,.,g,C3}} + single-byte mutations of 4 valid paths"));
+            if chunk == 0 {
+                // the 64 hex digits of a hash cut into three components of every shape near 2/2/60, with and without a prefix
+                for h in hashes() {
+                    let hx = hex(&h);
+                    for a in 0..=6usize {
+                        for b in 0..=6usize {
+                            for total in [63usize, 64, 65] {
+                                if a + b > total {
+                                    continue;
+                                }
+                                let digits: String = hx.chars().cycle().take(total).collect();
+                                let pth = format!("{}/{}/{}", &digits[..a], &digits[a..a + b], &digits[a + b..]);
+                                for pre in ["", "cas/", "/x/"] {
+                                    let full = format!("{pre}{pth}");
+                                    report(res, name, json!(hex(full.as_bytes())), check_dec_path(full.as_bytes()));
+                                }
+                            }
+                        }
+                    }
+                }
+            }
+            res.completed.push(format!("{name}: all strings of length <= {maxlen} over {{0,a,A,/,.,g,C3}} + single-byte mutations of 4 valid paths + every 3-component shape (a,b <= 6) of 63/64/65 hex digits"));
         }
         "rt-keys" => {
             for v in 0..=u8::MAX {
@@ -561,6 +582,39 @@ pub fn run_sweep(name: &str, tier: &str, chunk: u64, nchunks: u64, res: &mut Wor
                 if i % 5 == 0 || !quick {
                     mutations(enc, &subs, &mut |s| report(res, "dec-index", json!(hex(s)), check_dec_index(s)));
                 }
+            }
+            // snapshots of maps keyed by integers: the encoder walks keys in numeric order, which is not the byte order of
+            // their little-endian encodings (255 < 256, -1 < 0); the decoder must accept exactly what the encoder writes
+            if chunk == 0 {
+                fn typed<KK: KeyBytes + Ord + Clone + std::fmt::Debug>(keys: &[KK]) -> Option<String> {
+                    for mask in 1u32..(1 << keys.len()) {
+                        let mut m = BTreeMap::new();
+                        for (i, k) in keys.iter().enumerate() {
+                            if mask & (1 << i) != 0 {
+                                m.insert(k.clone(), IndexStateItem { blob_hash: BlobHash(b3(&[i as u8])), blob_size: i as u64 });
+                            }
+                        }
+                        let enc = codec::serialize_index_state(&m, NonZeroU64::new(7));
+                        match util::catch(|| codec::deserialize_index_state(&enc)) {
+                            Err(p) => return Some(format!("{:?}: decoder panicked: {p}", m.keys().collect::<Vec<_>>())),
+                            Ok(Err(e)) => return Some(format!("snapshot of keys {:?} is rejected by the decoder: {e}", m.keys().collect::<Vec<_>>())),
+                            Ok(Ok((back, v))) => {
+                                let want: BTreeMap<Vec<u8>, IndexStateItem> = m.iter().map(|(k, it)| (k.to_key_bytes().as_ref().to_vec(), *it)).collect();
+                                if back != want || v != NonZeroU64::new(7) {
+                                    return Some(format!("snapshot of keys {:?} decodes to {} entries", m.keys().collect::<Vec<_>>(), back.len()));
+                                }
+                            }
+                        }
+                    }
+                    None
+                }
+                let f = typed::<u32>(&[0, 1, 255, 256, 65_536, u32::MAX])
+                    .or_else(|| typed::<i16>(&[-1, 0, 1, 255, 256, i16::MIN, i16::MAX]))
+                    .or_else(|| typed::<u64>(&[255, 256, 1 << 32, u64::MAX]))
+                    .or_else(|| typed::<i128>(&[-1, 0, 1 << 64, i128::MIN]))
+                    .or_else(|| typed::<[u8; 2]>(&[[0, 1], [1, 0], [255, 255]]))
+                    .or_else(|| typed::<String>(&["b".into(), "a".into(), "".into(), "ab".into()]));
+                report(res, name, json!("typed-snapshots"), f.map(|d| ("C16", "snapshot-typed-roundtrip".to_string(), d)));
             }
             res.completed.push(format!("rt-ops: {} op encodings and {} snapshots round-tripped; every truncation, substitution ({} values) and insertion of {} of them decoded under the allocation guard", ops.len(), snaps.len(), subs.len(), if quick { "a 1/7 resp. 1/5 subset" } else { "all" }));
         }
@@ -690,6 +744,29 @@ pub fn run_sweep(name: &str, tier: &str, chunk: u64, nchunks: u64, res: &mut Wor
                         let f = check_chunking(&mut ctx, &data, &pl);
                         report(res, name_static(&name), json!({"content": name, "chunks": pl}), f);
                     }
+                }
+                // a stale file with other bytes already sits at the content's path (e.g. left by an earlier crash): the put must still
+                // end with the content at that path
+                for len in [0usize, 3, 9000] {
+                    let data = pattern(len + 40_000)[40_000 - 7..40_000 - 7 + len].to_vec();
+                    let rel = ondisk::path_of_hash(&b3(&data));
+                    let p = ctx.dir.join("cas").join(&rel);
+                    let _ = ctx.cas();
+                    std::fs::create_dir_all(p.parent().unwrap()).unwrap();
+                    std::fs::write(&p, b"torn").unwrap();
+                    let cuts: Vec<usize> = if len == 0 { vec![] } else { vec![len] };
+                    let f = check_chunking(&mut ctx, &data, &cuts);
+                    report(res, "chunking", json!({"content": format!("stale{len}"), "chunks": cuts, "stale_file_planted": true}), f);
+                }
+                if !quick {
+                    // a single write call larger than the kernel's per-call limit (0x7ffff000 bytes): the write is short and must be continued correctly
+                    let len = (1usize << 31) + 12 * 1024;
+                    let data = pattern(len);
+                    let f = check_chunking(&mut ctx, &data, &[len]);
+                    report(res, "chunking", json!({"content": format!("pattern{len}"), "chunks": [len]}), f);
+                    drop(data);
+                    // free the space again
+                    let _ = check_chunking(&mut ctx, b"x", &[1]);
                 }
                 let ones = vec![1usize; 300];
                 let f = check_chunking(&mut ctx, &big[..300], &ones);
